@@ -209,10 +209,11 @@ Definition path_info_pop (pat : option (str -> bool)) (e : environ) : res (optio
     else Ok (None, e).
 
 (* ------------------------------------------------------------------ environ_from_url *)
-(* SCHEME_RE = re.compile(r"^[a-z]+:", re.I).search: under re.I the class [a-z] of a str pattern also matches
-   U+0130, U+0131, U+017F and U+212A (their simple case mappings fall into a-z) *)
-Definition is_alpha_ci (c : N) : bool :=
-  is_alpha c || (c =? 304) || (c =? 305) || (c =? 383) || (c =? 8490).
+(* SCHEME_RE = re.compile(r"^[a-z]+:", re.I [| re.A]).search.  Under re.I alone the class [a-z] of a str
+   pattern also matches U+0130, U+0131, U+017F and U+212A (their simple case mappings fall into a-z); with
+   re.A it is the ASCII letters only.  Which of the two holds is regenerated from the live pattern object:
+   SCHEME_ALPHA_EXTRA (Gen/C13_tables.v) lists the non-ASCII members of the class. *)
+Definition is_alpha_ci (c : N) : bool := is_alpha c || mem_n c SCHEME_ALPHA_EXTRA.
 Definition scheme_re_search (s : str) : bool :=
   let (pre, rest) := span_until (fun c => negb (is_alpha_ci c)) s in
   negb (is_empty pre) && match rest with c :: _ => c =? 58 | [] => false end.
